@@ -86,6 +86,12 @@ def run(ctx):
     ctx.attempt(r917, ctx, rep)
     rep.rule('R9.18', 'the `missing` marker of mergeduplicates / merge is compared by value: a cell equal to the marker is missing whether or not it is the same object (C12 R12.11 imported)')
     ctx.attempt(r918, ctx, rep)
+    rep.rule('R9.19', 'a literal presorted=True handed to a grouping operator is justified on every path: every binding of the table passed is a sort / mergesort result (C11 R11.3 imported for petl.transform.reductions: merge -> mergeduplicates, ...)')
+    from .c11 import check_presorted_calls as _presorted_calls
+    ctx.attempt(_presorted_calls, ctx, rep, 'R9.19', ctx.functions(['petl.transform.reductions']))
+    rep.rule('R9.20', 'the sort that makes equal keys adjacent is the one C05 decides: every chunk is read, run / merge agreement, Comparable keys (C05 imported for petl.transform.sorts)')
+    from .common import import_sort_obligations as _import_sort
+    ctx.attempt(_import_sort, ctx, rep, 'R9.20')
     rep.rule('R9.16', 'groups are cut from rows sorted with Comparable: its < is a strict order in which None equals None (so equal keys keep their input order) and == agrees with it (C04 R4.1 / R4.2)')
     ctx.attempt(r916, ctx, rep)
     from .common import check_late_binding as _late, check_selector_truth as _seltruth
